@@ -130,7 +130,7 @@ class Tracker:
     def seek(self, tp, off):
         self.pos[tp] = off
 
-    def deliver(self, sets, where, strict=True):
+    def deliver(self, sets, where):
         """checks one successful poll's message sets and advances the expectation"""
         fails, seen = [], set()
         for topic, part, msgs in sets:
@@ -150,14 +150,8 @@ class Tracker:
                 eoffs = [m[0] for m in exp]
                 if any(b <= a for a, b in zip(offs, offs[1:])):
                     what = "offsets not increasing %s" % offs[:8]
-                elif offs and offs[0] < self.pos[tp]:
+                elif offs[0] < self.pos[tp]:
                     what = "duplicate: offset %d delivered again (next expected %d)" % (offs[0], self.pos[tp])
-                elif not strict:
-                    # after a desynchronised connection only duplicates / disorder / foreign messages are reported
-                    if all(m in self.logs[tp] for m in msgs):
-                        self.pos[tp] = msgs[-1][0] + 1
-                        continue
-                    what = "messages that are not in this partition's log: %s" % offs[:8]
                 elif offs != eoffs:
                     what = "skipped/misplaced: delivered offsets %s, log continues with %s" % (offs[:8], eoffs[:8])
                 else:
